@@ -47,6 +47,52 @@ def as_weights(b):
     return sp[3] if len(sp) > 3 else True
 
 
+class Flat:
+    """Concrete contracts of an environment: a FutureChain contributes each of its listed futures."""
+
+    def __init__(self, b):
+        self.contracts, self.mult, self.margin, self.margined, self.owner = [], [], [], [], []
+        self.first = {}
+        for ci, c in enumerate(b.contracts):
+            self.first[ci] = len(self.contracts)
+            if b.case["contracts"][ci]["kind"] == "chain":
+                for fut in c.contracts:
+                    self.contracts.append(fut)
+                    self.mult.append(float(fut.multiplier))
+                    self.margin.append(float(fut.margin_requirement))
+                    self.margined.append(True)
+                    self.owner.append(ci)
+            else:
+                self.contracts.append(c)
+                self.mult.append(b.mult[ci])
+                self.margin.append(b.margin[ci])
+                self.margined.append(b.margined[ci])
+                self.owner.append(ci)
+        self.n = len(self.contracts)
+        self.by_symbol = {c.symbol: i for i, c in enumerate(self.contracts)}
+
+    def index(self, contract):
+        return self.by_symbol[contract.symbol]
+
+    def book(self, events):
+        """Last quote per concrete contract in delivery order; rate; time of the last event."""
+        bid = [float("nan")] * self.n
+        ask = [float("nan")] * self.n
+        rate = 0.0
+        last_t = None
+        for e in events:
+            if e[2] == "Q":
+                ci, b_, a_ = e[3]
+                bid[self.first[ci]], ask[self.first[ci]] = b_, a_
+            elif e[2] == "QU":
+                ci, ui, b_, a_ = e[3]
+                bid[self.first[ci] + ui], ask[self.first[ci] + ui] = b_, a_
+            elif e[2] == "RATE":
+                rate = e[3]
+            last_t = e[0]
+        return bid, ask, rate, last_t
+
+
 def replay(case, res, checks, episodes=1):
     """Runs `episodes` consecutive episodes on ONE environment (the later ones with the action list reversed) and the
     oracle on each. `checks` ⊆ {"ledger", "reward", "fifo", "pricing", "frames", "target"}.
@@ -75,9 +121,10 @@ def replay(case, res, checks, episodes=1):
 def _replay_episode(case, b, res, checks, actions):
     tm = E.Timing(b)
     env = b.env
-    n = b.n
+    F = Flat(b)
+    n = F.n
     fixed, prop = case.get("fees", [0.0, 0.0])
-    led = B.Ledger(n, b.mult, case.get("deposit", 1000.0), fixed, prop)
+    led = B.Ledger(n, F.mult, case.get("deposit", 1000.0), fixed, prop)
     stats = {"executions": 0, "nonzero_trade_execs": 0, "quote_changed_between": 0, "ruin": False,
              "latent_quote_changed_price": 0, "boundary_quote": 0, "interest_nonzero": 0, "delay": case.get("delay", 0),
              "steps": 0}
@@ -106,7 +153,7 @@ def _replay_episode(case, b, res, checks, actions):
         obs, reward, done, info = out
         stats["steps"] += 1
         before = tm.delivered_before_execution(j)
-        bid, ask, rate, t_exec = E.Timing.book(before, n)
+        bid, ask, rate, t_exec = F.book(before)
         for i in range(n):
             led.quote(i, bid[i], ask[i])
         tr = env.broker.track_record
@@ -140,7 +187,7 @@ def _replay_episode(case, b, res, checks, actions):
             want = expected_allocation(b, actions[src]) if src >= 0 else null_allocation(b)
             got = {}
             for c, v in entry.allocation.items():
-                got[index_of(b, c)] = float(v)
+                got[F.owner[F.index(c)]] = float(v)
             if got != want:
                 res.fail("execution %d (delay %d) carries allocation %s, expected the one submitted at decision %d: %s" % (
                     j, delay, got, src + 1, want))
@@ -168,12 +215,12 @@ def _replay_episode(case, b, res, checks, actions):
             if not abs(entry.context_pre.nlv - nlv_pre_model) <= tol:
                 res.fail("execution %d: context_pre.nlv %.12g, ledger wealth before the trades %.12g" % (j, entry.context_pre.nlv, nlv_pre_model))
                 return stats
-            if not check_context(res, b, led, entry.context_pre, "pre", j):
+            if not check_context(res, F, led, entry.context_pre, "pre", j):
                 return stats
         # ---- trades
         any_nonzero = False
         for trd in entry.trades:
-            i = index_of(b, trd.contract)
+            i = F.index(trd.contract)
             px_model = ask[i] if trd.quantity > 0 else bid[i]
             if "pricing" in checks or "ledger" in checks:
                 if float(trd.acq_price) != px_model:
@@ -191,11 +238,11 @@ def _replay_episode(case, b, res, checks, actions):
             stats["quote_changed_between"] += 1
         prev_book = (list(bid), list(ask))
         if "target" in checks:
-            alloc = {index_of(b, c): float(v) for c, v in entry.allocation.items()}
+            alloc = {F.index(c): float(v) for c, v in entry.allocation.items()}
             pre = float(entry.context_pre.nlv)
             hq_post = entry.context_post.nr_contracts
             for i in range(n):
-                qp = float(hq_post.get(b.contracts[i], 0.0))
+                qp = float(hq_post.get(F.contracts[i], 0.0))
                 w = alloc.get(i, 0.0)
                 if w == 0.0:
                     if qp != 0.0 and b.case.get("threshold", 0.0) == 0.0:
@@ -203,9 +250,9 @@ def _replay_episode(case, b, res, checks, actions):
                         return stats
                 elif as_weights(b):
                     px = ask[i] if w > 0 else bid[i]
-                    if b.case.get("threshold", 0.0) == 0.0 and not B.close(qp * b.mult[i] * px, w * pre, rel=1e-9, abs_=1e-9 * abs(pre)):
+                    if b.case.get("threshold", 0.0) == 0.0 and not B.close(qp * F.mult[i] * px, w * pre, rel=1e-9, abs_=1e-9 * abs(pre)):
                         res.fail("execution %d: contract %d position x multiplier x quote = %.12g, weight x pre-trade NLV = %.12g" % (
-                            j, i, qp * b.mult[i] * px, w * pre))
+                            j, i, qp * F.mult[i] * px, w * pre))
                         return stats
                 else:
                     if not B.close(qp, w, rel=1e-12, abs_=1e-9):
@@ -214,14 +261,14 @@ def _replay_episode(case, b, res, checks, actions):
         if "ledger" in checks:
             hq = entry.context_post.nr_contracts
             for i in range(n):
-                got = float(hq.get(b.contracts[i], 0.0))
+                got = float(hq.get(F.contracts[i], 0.0))
                 if not B.close(got, led.q[i], rel=1e-12, abs_=1e-12):
                     res.fail("execution %d: recorded holding of contract %d is %r, cumulative recorded trades give %r" % (j, i, got, led.q[i]))
                     return stats
             if not abs(entry.context_post.nlv - led.nlv()) <= 1e-9 * led.scale():
                 res.fail("execution %d: context_post.nlv %.12g, ledger wealth after the trades %.12g" % (j, entry.context_post.nlv, led.nlv()))
                 return stats
-            if not check_context(res, b, led, entry.context_post, "post", j):
+            if not check_context(res, F, led, entry.context_post, "post", j):
                 return stats
         # ---- latency boundary bookkeeping (non-trivial rule of C08)
         sj = tm.steps[j]
@@ -232,7 +279,7 @@ def _replay_episode(case, b, res, checks, actions):
                 stats["latent_quote_changed_price"] += 1
         # ---- after the step's market events
         after = tm.delivered_after_step(j)
-        bid2, ask2, rate2, t_after = E.Timing.book(after, n)
+        bid2, ask2, rate2, t_after = F.book(after)
         for i in range(n):
             led.quote(i, bid2[i], ask2[i])
         nlv_now = led.nlv()
@@ -240,8 +287,8 @@ def _replay_episode(case, b, res, checks, actions):
         cash = nlv_now
         for i in range(n):
             if led.q[i] != 0:
-                v = led.q[i] * led.liq(i) * b.mult[i]
-                cash -= (b.margin[i] * abs(v)) if b.margined[i] else v
+                v = led.q[i] * led.liq(i) * F.mult[i]
+                cash -= (F.margin[i] * abs(v)) if F.margined[i] else v
         last_mark_cash = cash
         if nlv_now <= 1e-9 * led.scale():
             stats["ruin"] = True
